@@ -142,6 +142,8 @@ struct Model {
     base: Vec<u64>,
     w: usize,
     lag: usize,
+    /// per `u` source: offset added to its values (a version change of that source alone comes with new contents of that source alone)
+    off: Vec<u64>,
 }
 impl Model {
     fn n(&self) -> usize {
@@ -158,7 +160,8 @@ impl Model {
         }
     }
     fn u(&self, k: usize) -> Vec<u64> {
-        self.base[..self.len_k(k)].iter().map(|&v| Self::fu(k, v)).collect()
+        let o = self.off.get(k).copied().unwrap_or(0);
+        self.base[..self.len_k(k)].iter().map(|&v| Self::fu(k, v) + o).collect()
     }
     fn h(&self, k: usize) -> Vec<u16> {
         self.base[..self.len_k(k)]
@@ -408,10 +411,10 @@ macro_rules! all_srcs {
 }
 
 impl<S: Fam> Srcs<S> {
-    fn open(db: &Database, sp: &Spec, ver: u32) -> Result<Self, String> {
+    fn open(db: &Database, sp: &Spec, ver: u32, uver: &[u32]) -> Result<Self, String> {
         let mut s = Srcs::<S> { u: vec![], h: vec![], f: vec![], d: vec![], st: vec![], fi: vec![], cn: vec![], inn: vec![], fp: vec![] };
         for k in 0..sp.count('u') {
-            s.u.push(imp(db, &format!("u{k}"), ver)?);
+            s.u.push(imp(db, &format!("u{k}"), uver.get(k).copied().unwrap_or(ver))?);
         }
         for k in 0..sp.count('h') {
             s.h.push(imp(db, &format!("h{k}"), ver)?);
@@ -846,9 +849,9 @@ struct World<S: Fam, O: Fam> {
     db: Database,
 }
 
-fn open_world<S: Fam, O: Fam>(path: &std::path::Path, sp: &Spec, ver: u32) -> Result<World<S, O>, String> {
+fn open_world<S: Fam, O: Fam>(path: &std::path::Path, sp: &Spec, ver: u32, uver: &[u32]) -> Result<World<S, O>, String> {
     let db = Database::open(path).map_err(|e| format!("open db: {e:?}"))?;
-    let srcs = Srcs::<S>::open(&db, sp, ver)?;
+    let srcs = Srcs::<S>::open(&db, sp, ver, uver)?;
     let out = Out::<O>::open(&db, "out", sp.kind)?;
     Ok(World { srcs, out, db })
 }
@@ -858,8 +861,11 @@ fn replay<S: Fam, O: Fam>(cfg: &Cfg, bidx: usize, steps: &[Value], stats: &Mutex
     let sp = cfg.spec;
     let kind = sp.kind;
     let scratch = Scratch::new("eag");
-    let mut model = Model { base: vec![], w: cfg.w, lag: cfg.lag };
+    let nu = sp.count('u');
+    let mut model = Model { base: vec![], w: cfg.w, lag: cfg.lag, off: vec![0; nu] };
     let mut ver = 1u32;
+    let mut uver: Vec<u32> = vec![1; nu];
+    let mut nbumps = 0usize;
     let mut world: Option<World<S, O>> = None;
     let mut bumped = false;
     let mut dirty_from = usize::MAX;
@@ -892,7 +898,7 @@ fn replay<S: Fam, O: Fam>(cfg: &Cfg, bidx: usize, steps: &[Value], stats: &Mutex
         // Ok(None): continue, Ok(Some(v)): violation, Err(""): stop the history quietly, Err(msg): harness-level failure
         let r = catch_unwind(AssertUnwindSafe(|| -> Result<Option<Value>, String> {
             if world.is_none() {
-                world = Some(open_world::<S, O>(scratch.path(), sp, ver)?);
+                world = Some(open_world::<S, O>(scratch.path(), sp, ver, &uver)?);
             }
             match op.as_str() {
                 "append" => {
@@ -925,7 +931,7 @@ fn replay<S: Fam, O: Fam>(cfg: &Cfg, bidx: usize, steps: &[Value], stats: &Mutex
                     drop(srcs);
                     drop(out);
                     drop(db);
-                    world = Some(open_world::<S, O>(scratch.path(), sp, ver)?);
+                    world = Some(open_world::<S, O>(scratch.path(), sp, ver, &uver)?);
                     let wd = world.as_ref().unwrap();
                     if wd.out.cv() != cv {
                         return Ok(Some(viol(si, format!("computed version not preserved by re-import: {:?} before, {:?} after", cv, wd.out.cv()), json!({}))));
@@ -943,12 +949,21 @@ fn replay<S: Fam, O: Fam>(cfg: &Cfg, bidx: usize, steps: &[Value], stats: &Mutex
                     let wd = world.take().unwrap();
                     let World { srcs, out, db } = wd;
                     drop(srcs);
-                    ver += 1;
-                    let srcs = Srcs::<S>::open(&db, sp, ver)?;
-                    world = Some(World { srcs, out, db });
-                    for v in model.base.iter_mut() {
-                        *v += 100;
+                    if nu >= 2 {
+                        // several inputs: the version (and the contents) of ONE of them changes, last input first
+                        let j = nu - 1 - (nbumps % nu);
+                        uver[j] += 1;
+                        model.off[j] += 100;
+                    } else {
+                        ver += 1;
+                        for u in uver.iter_mut() { *u = ver; }
+                        for v in model.base.iter_mut() {
+                            *v += 100;
+                        }
                     }
+                    nbumps += 1;
+                    let srcs = Srcs::<S>::open(&db, sp, ver, &uver)?;
+                    world = Some(World { srcs, out, db });
                     world.as_mut().unwrap().srcs.sync_all(&model)?;
                     bumped = true;
                     Ok(None)
